@@ -564,6 +564,59 @@ def replaced_params_stage(rep, rs, tier, cfgs):
     rep.cov["replaced_parameter_histories"] = dict(models=ndone, how=kinds)
 
 
+def base_stage(rep, rs, tier, cfgs):
+    """the sampler draws from the distribution log_prob describes also when the base is not the standard normal: a
+    user-supplied Normal(loc, scale) base, or the default base after its registered location / scale were given other values
+    (a loaded checkpoint).  Latent images of samples (apply_backward, exact by the theorems) must have the base's mean and
+    standard deviation per coordinate; log_prob must use the same base."""
+    import torch
+    nbad = 0; done = 0
+    pick = [c for c in cfgs if c["kind"] in ("maf", "nvp1") and c["logit"] is None][: (4 if tier == "quick" else 16)]
+    for hi, cfg in enumerate(pick):
+        D = cfg["D"]
+        loc = torch.tensor(rs.uniform(-3.0, 3.0, size=D)); scale = torch.tensor(rs.uniform(0.3, 2.5, size=D))
+        try:
+            from deeprob.flows.models.maf import MAF
+            from deeprob.flows.models.realnvp import RealNVP1d
+            how = ["in_base=Normal(loc, scale)", "registered base location / scale overwritten"][hi % 2]
+            if hi % 2 == 0:
+                base = torch.distributions.Normal(loc, scale)
+                if cfg["kind"] == "maf":
+                    model = MAF(D, n_flows=cfg["n_flows"], depth=cfg["depth"], units=cfg["units"], batch_norm=cfg["batch_norm"],
+                                activation=cfg["activation"], sequential=cfg["sequential"], in_base=base, random_state=np.random.RandomState(cfg["rseed"]))
+                else:
+                    model = RealNVP1d(D, n_flows=cfg["n_flows"], depth=cfg["depth"], units=cfg["units"], batch_norm=cfg["batch_norm"], affine=cfg["affine"], in_base=base)
+                randomize(model, rs)
+            else:
+                model = build(cfg); randomize(model, rs)
+                with torch.no_grad():
+                    model.in_base_loc.copy_(loc); model.in_base_scale.copy_(scale)
+            model.eval()
+            N = 6000
+            torch.manual_seed(int(rs.randint(1 << 30)))
+            with torch.no_grad():
+                xs = model.sample(N).double()
+                us = model.apply_backward(model.preprocess(xs)[0])[0].reshape(N, -1).double().numpy()
+                lp = model(xs[:4]).reshape(-1).double().numpy()
+                u4, il4 = model.apply_backward(model.preprocess(xs[:4])[0])
+                ref = (torch.distributions.Normal(loc, scale).log_prob(u4.reshape(4, -1).double()).sum(1) + torch.as_tensor(il4).double().reshape(-1)).numpy()
+            m_, s_ = us.mean(0), us.std(0)
+            bad = None
+            if np.any(np.abs(m_ - loc.numpy()) > 6 * scale.numpy() / math.sqrt(N) + 1e-3) or np.any(np.abs(s_ / scale.numpy() - 1) > 0.08):
+                bad = dict(what="latent images of the sampler's draws do not have the base distribution's mean / standard deviation",
+                           base_loc=loc.tolist(), base_scale=scale.tolist(), latent_mean=m_.tolist(), latent_std=s_.tolist(), draws=N)
+            elif not np.allclose(lp, ref, rtol=1e-6, atol=1e-6):
+                bad = dict(what="log_prob is not the base log-density of the latent image plus the reported ildj", log_prob=lp.tolist(), expected=ref.tolist())
+        except Exception as ex:
+            bad = dict(what="a flow with a non-standard Gaussian base raised", error=f"{type(ex).__name__}: {ex}")
+        done += 1
+        if bad:
+            nbad += 1
+            if nbad <= 3:
+                rep.violation(dict(kind="sampler-and-log-prob-use-different-base-distributions", base=how, config=cfg, failure=bad), True)
+    rep.cov["non_standard_base_models"] = done
+
+
 def main(tier, seed, replay=None):
     import torch
     torch.set_num_threads(1)
@@ -662,5 +715,6 @@ def main(tier, seed, replay=None):
                        "(autograd Jacobians, round trips) runs on every model")
     stacked_stage(rep, rs, tier)
     replaced_params_stage(rep, rs, tier, cfgs)
+    base_stage(rep, rs, tier, cfgs)
     C.clean_gen(PID)
     return rep.finish("proof")
